@@ -267,9 +267,16 @@ def pmap(fn, units, jobs=None):
     if jobs == 1 or len(units) <= 1:
         out = [_call(u) for u in units]
     else:
-        ctx = mp.get_context("fork")
-        with ctx.Pool(min(jobs, len(units))) as pool:
-            out = pool.map(_call, units, chunksize=1)
+        # ProcessPoolExecutor (not mp.Pool): a worker that dies (out of memory, signal) raises BrokenProcessPool here
+        # instead of hanging the pool forever
+        from concurrent.futures import ProcessPoolExecutor
+        from concurrent.futures.process import BrokenProcessPool
+        try:
+            with ProcessPoolExecutor(min(jobs, len(units)), mp_context=mp.get_context("fork")) as pool:
+                out = list(pool.map(_call, units, chunksize=1))
+        except BrokenProcessPool as e:
+            sys.stderr.write("HARNESS-ERROR: a worker process died (" + repr(e)[:200] + ")\n")
+            sys.exit(2)
     for r in out:
         if isinstance(r, tuple) and r and r[0] == "__HARNESS_ERROR__":
             sys.stderr.write("HARNESS-ERROR in worker: " + r[1] + "\n")
